@@ -131,7 +131,7 @@ class _Redis(Backend):
         return await self._client.pexpire(key, int(timeout * 1000))
 
     async def set_lock(self, key: Key, value: Value, expire: float) -> bool:
-        pexpire = int(expire * 1000)
+        pexpire = int(expire * 1000) if expire else None  # no ttl (`locked(ttl=None)`): a lock without a lease, as in memory
         return bool(await self._client.set(key, value, px=pexpire, nx=True))
 
     async def is_locked(
